@@ -75,6 +75,18 @@ var c09Addrs = []addrSpec{
 	{"/ip6zone/lo/ip6/::1/tcp/3105", false},
 	{"/ip6zone/eth0/ip6/fe80::1/tcp/80/http", false},
 	{"/ip6zone/eth0/ip6/::/tcp/3104/http", false},
+	// an IP literal where a name is expected: every dialer takes it for the
+	// IP address it spells
+	{"/dns4/127.0.0.1/tcp/80/http", false},
+	{"/dns4/10.1.2.3/tcp/443/https", false},
+	{"/dns/192.168.1.1/tcp/80/http", false},
+	{"/dns4/0.0.0.0/tcp/80/http", false},
+	{"/dns6/::1/tcp/80/http", false},
+	{"/dns/169.254.169.254/tcp/80/http", false},
+	{"/dns4/8.8.4.4/tcp/80/http", true},
+	// other spellings of the loopback name
+	{"/dns/LOCALHOST/tcp/3104/http", false},
+	{"/dns4/localhost./tcp/3104/http", false},
 }
 
 type c09Sent struct {
